@@ -162,6 +162,7 @@ type PolicyCfg struct {
 	Prefixes []string `json:"prefixes,omitempty"`  // prefix-set match (exact)
 	Neighbor []string `json:"neighbors,omitempty"` // neighbor-set match
 	Comm     string   `json:"comm,omitempty"`      // community regexp match
+	Comms    []string `json:"comms,omitempty"`     // further members of the community set
 	RPKI     string   `json:"rpki,omitempty"`      // valid | invalid | not-found
 	Action   string   `json:"action"`              // accept | reject
 	SetMED   int64    `json:"set_med,omitempty"`   // >0: set
